@@ -256,5 +256,6 @@ class MultipartDecoder:
 def safe_decode(src: Union[bytes, bytearray], charset: str) -> str:
     try:
         return src.decode(charset)
-    except (UnicodeDecodeError, LookupError):
+    except (UnicodeError, LookupError):
+        # some codecs (undefined, punycode, idna) raise a plain UnicodeError
         return src.decode("latin-1")
